@@ -3,6 +3,8 @@
 package tor
 
 import (
+	"strings"
+
 	"github.com/jech/storrent/hash"
 	"github.com/jech/storrent/path"
 	"github.com/jech/storrent/tracker"
@@ -85,6 +87,9 @@ func vC13(nf int) {
 			vAssert(sum+t.Files[i].Length >= sum, "no overflow in the layout")
 			sum += t.Files[i].Length
 			vAssert(len(t.Files[i].Path) > 0, "file has a path")
+			// BEP 47: a padding file is one whose attribute string contains 'p' (next to any other flag)
+			hasP := strings.Contains(info.Files[i].Attr, "p")
+			vAssert(t.Files[i].Padding == hasP, "a file is padding exactly when its attributes contain 'p'")
 		}
 		vAssert(sum == L, "files sum to the total length")
 	} else {
